@@ -57,12 +57,13 @@ SmallOps(s) ==
     \cup {[NoArg("SetOnline") EXCEPT !.flag = b] : b \in BOOLEAN}
     \cup {[NoArg("GetFile") EXCEPT !.r = r] : r \in R}
     \cup {[NoArg("Blacklist") EXCEPT !.i = k] : k \in 1..2}
+    \cup {[NoArg("Par") EXCEPT !.r = r, !.flag = TRUE] : r \in {1, 2}}
 
 \* simulation: weighted families, depending on how far the history is
 FamStart == <<"setindex", "setindex", "setindex", "setindex", "update", "setfile">>
 FamMid == <<"setindex", "setindex", "setfile", "setfile", "update", "update", "update", "load", "select", "select", "select",
             "download", "download", "download", "download", "getfile", "getfile", "getfile", "getfile", "getfile",
-            "blacklist", "blacklist", "online", "restart">>
+            "blacklist", "blacklist", "online", "restart", "par", "par", "setfile">>
 KindBag == <<"v2", "v2", "v2", "v2", "v2", "v2", "old", "garbage">>
 ChanBag == <<"right", "right", "right", "right", "", "", "wrong">>
 PubBag == <<0, 1, 1, 2, 2, 3, 3, 9>>
@@ -95,6 +96,9 @@ SimOps(s, n) ==
          [] fam = "download" -> {[NoArg("Download") EXCEPT !.flag = RandomElement(BOOLEAN), !.mode = Draw(CtxBag, n)]}
          [] fam = "getfile" -> LET k == Known(s) IN
                                {[NoArg("GetFile") EXCEPT !.r = IF k # {} /\ RandomElement(1..6) > 1 THEN RandomElement(k) ELSE RandomElement(R)]}
+         [] fam = "par" -> LET k == {r \in Known(s) : s.res[r].sel # NoV} IN      \* (GetFile of a resource with a selected version)
+                           IF k = {} THEN {NoArg("Select")}
+                           ELSE {[NoArg("Par") EXCEPT !.r = RandomElement(k), !.flag = RandomElement(BOOLEAN)]}
          [] fam = "blacklist" -> IF Len(s.handles) = 0 THEN {NoArg("Select")}
                                  ELSE {[NoArg("Blacklist") EXCEPT !.i = RandomElement(1..Len(s.handles))]}
          [] fam = "online" -> {[NoArg("SetOnline") EXCEPT !.flag = RandomElement(BOOLEAN)]}
